@@ -326,7 +326,7 @@ fn item_feat(k: ItemKind) -> Option<FeatSpec> {
     Some(match k {
         ItemKind::Top => feat(vec![s(), s()]),
         ItemKind::Ruled => FeatSpec {
-            rules: vec![RuleSpec { scenarios: vec![s()], ..Default::default() }],
+            rules: vec![RuleSpec { scenarios: vec![s(), s()], ..Default::default() }],
             ..Default::default()
         },
         ItemKind::Both => FeatSpec {
